@@ -132,3 +132,117 @@ Proof.
   exists w_tm, (GStruct (b "QResponse")), (b "QResponse"), w_resp_null.
   eexists. eexists. eexists. split; [vm_compute; reflexivity|]. split; reflexivity.
 Qed.
+
+(* ---- input structs (C04): keys, omitempty, nil ---- *)
+Lemma flatten_bfs_subset tm fuel : forall queue seen out,
+  (forall p, In p queue -> gf_name (fst p) <> []) ->
+  flatten_bfs tm fuel queue seen = Ok out -> forall p, In p out -> In p queue.
+Proof.
+  induction fuel as [|f IH]; intros queue seen out Hq H; [discriminate|]. cbn [flatten_bfs] in H.
+  destruct queue as [|[fl path] rest]; [injection H as <-; intros p []|].
+  assert (Hrest : forall p, In p rest -> gf_name (fst p) <> []) by (intros p Hp; apply Hq; right; exact Hp).
+  pose proof (Hq (fl, path) (or_introl eq_refl)) as Hne. cbn [fst] in Hne.
+  destruct (gf_name fl) as [|c nm]; [exfalso; apply Hne; reflexivity|].
+  destruct (existsb (str_eqb (gf_json fl)) seen).
+  - intros p Hp. right. exact (IH _ _ _ Hrest H p Hp).
+  - apply bind_ok in H. destruct H as [more [Hm Ho]]. injection Ho as <-.
+    intros p [<-|Hp]; [left; reflexivity | right; exact (IH _ _ _ Hrest Hm p Hp)].
+Qed.
+
+Lemma flattened_fields_subset tm fields out :
+  (forall fl, In fl fields -> gf_name fl <> []) ->
+  flattened_fields tm fields = Ok out -> forall p, In p out -> In (fst p) fields.
+Proof.
+  unfold flattened_fields. intros Hne Hf p Hp.
+  assert (Hq : forall p, In p (map (fun fl => (fl, @nil str)) fields) -> gf_name (fst p) <> []).
+  { intros q Hin. apply in_map_iff in Hin. destruct Hin as [fl0 [<- Hin]]. cbn [fst]. exact (Hne fl0 Hin). }
+  pose proof (flatten_bfs_subset tm FLATTEN_FUEL _ _ _ Hq Hf p Hp) as Hin.
+  apply in_map_iff in Hin. destruct Hin as [fl0 [<- Hin]]. exact Hin.
+Qed.
+
+(* the variables object has a key only for declared variables (the fields of the hidden input
+   struct), each at most once *)
+Theorem input_struct_keys tm f n v kvs g fields s i :
+  assoc n tm = Some (DStruct g fields s i) ->
+  (forall fl, In fl fields -> gf_name fl <> []) ->
+  encode_struct tm (S f) n v = Ok kvs ->
+  NoDup (map fst kvs) /\ forall k, In k (map fst kvs) -> In k (map gf_json fields).
+Proof.
+  intros Ha Hne H. split; [exact (encode_struct_keys_once _ _ _ _ _ H)|].
+  cbn [encode_struct] in H. rewrite Ha in H. apply bind_ok in H. destruct H as [flat [Hf H]].
+  intros k Hk. apply (proj1 (enc_fields_keys _ _ _ _ _ H)) in Hk.
+  apply in_map_iff in Hk. destruct Hk as [[fl path] [Ek Hp]]. cbn [fst] in Ek. subst k.
+  apply in_map. exact (flattened_fields_subset _ _ _ Hne Hf _ Hp).
+Qed.
+
+(* omitempty, exactly: an ordinary field's key is present iff NOT (marked omitempty and empty in
+   the encoding/json sense) *)
+Theorem ordinary_field_omitted_iff_empty enc enci v : forall fls out,
+  enc_fields enc enci v fls = Ok out ->
+  NoDup (map (fun p => gf_json (fst p)) fls) ->
+  forall fl path, In (fl, path) fls -> special fl = false ->
+  (In (gf_json fl) (map fst out)
+   <-> gf_omitempty fl && is_empty (gf_type fl) (struct_field (select_path v path) (gf_name fl)) = false).
+Proof.
+  induction fls as [|[fl0 path0] r IH]; intros out H Hnd fl path Hin Hsp; [destruct Hin|].
+  cbn [enc_fields] in H. inversion Hnd as [|a l Hnotin Hnd']. subst.
+  assert (Hkeys : forall o, enc_fields enc enci v r = Ok o -> ~ In (gf_json fl0) (map fst o)).
+  { intros o Ho Hk. apply Hnotin. exact (proj1 (enc_fields_keys _ _ _ _ _ Ho) _ Hk). }
+  destruct Hin as [E|Hin].
+  - injection E as -> ->. rewrite Hsp in H.
+    destruct (gf_omitempty fl && is_empty _ _) eqn:Eo.
+    + split; [intro Hk; exfalso; exact (Hkeys _ H Hk) | discriminate].
+    + apply bind_ok in H. destruct H as [j [_ H]]. apply bind_ok in H. destruct H as [rest [_ H]].
+      injection H as <-. split; [reflexivity | intros _; left; reflexivity].
+  - assert (Hne : gf_json fl0 <> gf_json fl).
+    { intro E. apply Hnotin. rewrite E. apply in_map_iff. exists (fl, path). split; [reflexivity | exact Hin]. }
+    assert (Hskip : forall o, enc_fields enc enci v r = Ok o ->
+       (In (gf_json fl) (map fst o) <-> gf_omitempty fl && is_empty (gf_type fl) (struct_field (select_path v path) (gf_name fl)) = false))
+      by (intros o Ho; exact (IH _ Ho Hnd' fl path Hin Hsp)).
+    assert (Hkeep : forall j rest, enc_fields enc enci v r = Ok rest ->
+       (In (gf_json fl) (map fst ((gf_json fl0, j) :: rest)) <-> gf_omitempty fl && is_empty (gf_type fl) (struct_field (select_path v path) (gf_name fl)) = false)).
+    { intros j rest Hr. rewrite <- (Hskip _ Hr). cbn [map fst In]. split; [intros [E|Hk]; [contradiction | exact Hk] | intro Hk; right; exact Hk]. }
+    destruct (special fl0).
+    + destruct (gf_omitempty fl0 && special_empty _ _ _); [exact (Hskip _ H)|].
+      apply bind_ok in H. destruct H as [j [_ H]]. apply bind_ok in H. destruct H as [rest [Hr H]].
+      injection H as <-. exact (Hkeep _ _ Hr).
+    + destruct (gf_omitempty fl0 && is_empty _ _); [exact (Hskip _ H)|].
+      apply bind_ok in H. destruct H as [j [_ H]]. apply bind_ok in H. destruct H as [rest [Hr H]].
+      injection H as <-. exact (Hkeep _ _ Hr).
+Qed.
+
+(* "empty in the encoding/json sense": false, 0, "", nil pointer, nil interface, empty slice / map;
+   never a struct *)
+Theorem is_empty_spec :
+  (forall t, is_empty t VNilPtr = true) /\ (forall t, is_empty t VNilSlice = true) /\ (forall t, is_empty t VNilIface = true)
+  /\ (forall t, is_empty t (VSlice []) = true) /\ (forall t x l, is_empty t (VSlice (x :: l)) = false)
+  /\ (forall t x, is_empty t (VPtr x) = false)
+  /\ (forall t, is_empty t (VScalar (JStr [])) = true) /\ (forall t c s, is_empty t (VScalar (JStr (c :: s))) = false)
+  /\ (forall t i, is_empty t (VScalar (JNum 0 i)) = true) /\ (forall t, is_empty t (VScalar (JBool false)) = true)
+  /\ (forall t, is_empty t (VScalar (JBool true)) = false)
+  /\ (forall n fs, is_empty (GStruct n) (VStruct n fs) = false) /\ (forall n, is_empty (GStruct n) VZero = false).
+Proof. repeat split; reflexivity. Qed.
+
+(* nil pointers and nil slices are sent as null *)
+Theorem nil_is_null tm f e : encode tm (S f) (GPtr e) VNilPtr = Ok JNull /\ encode tm (S f) (GSlice e) VNilSlice = Ok JNull.
+Proof. split; reflexivity. Qed.
+
+(* the documented exception: a NON-pointer value with a custom marshaler is never omitted, a nil
+   pointer to one is (it is empty in the encoding/json sense) *)
+Theorem custom_marshaled_omission v :
+  special_empty O false v = false /\ special_empty O true VNilPtr = true /\ (forall x, special_empty O true (VPtr x) = false).
+Proof. repeat split; reflexivity. Qed.
+
+(* every element at every list depth goes through the leaf encoder (the marshaler) *)
+Theorem enc_levels_maps_leaf n leaf : forall v j,
+  enc_levels n leaf v = Ok j ->
+  match n, v with
+  | O, _ => leaf v = Ok j
+  | S k, VSlice l => exists js, map_res (enc_levels k leaf) l = Ok js /\ j = JArr js
+  | S _, _ => j = JArr []
+  end.
+Proof.
+  destruct n as [|k]; intros v j H; [exact H|]. cbn [enc_levels] in H.
+  destruct v; try (injection H as <-; reflexivity).
+  apply bind_ok in H. destruct H as [js [Hm H]]. injection H as <-. exists js. split; [exact Hm | reflexivity].
+Qed.
